@@ -7,7 +7,7 @@ from typing import Dict, List, Optional, Set, Tuple
 
 from ..astutil import arg_of, call_name, calls, enclosing_loops, guards, kwarg, last_attr, stmt_key, txt, walk_local
 from ..cfg import CFG
-from ..flow import bound_from
+from ..flow import bound_from, expand_helpers, inline_reaching
 from ..index import UNRESOLVED, AnalysisError, ClassInfo, dotted
 from ..kernel import Affine, OutsideFragment, affine
 from ..report import Ctx
@@ -194,53 +194,91 @@ def r12_2(ctx: Ctx) -> None:
                detail="; ".join(stmt_key(x) for x in appended + stores), form="")
 
 
+def _resolved_stores(ctx: Ctx, func: ast.FunctionDef, cfg: CFG, keep: Set[str] = frozenset()):
+    """ (key, value, site) for each qualifier store made by the adjuster, directly or through an `_adjust_*` helper
+        (parameters replaced by the caller's arguments); values have locals resolved to their reaching definitions and
+        one-statement module helpers expanded """
+    from ..flow import inline_call  # noqa: F401
+    out = []
+    for node in walk_local(func):
+        if isinstance(node, ast.Assign):
+            for target in node.targets:
+                if isinstance(target, ast.Subscript) and txt(target.value).endswith(".qualifiers") \
+                        and isinstance(target.slice, ast.Constant):
+                    value = expand_helpers(ctx.repo, HELP, inline_reaching(cfg, node, node.value, keep=keep))
+                    out.append((target.slice.value, value, node))
+        elif isinstance(node, ast.Call) and call_name(node).startswith("_adjust_"):
+            helper = ctx.fn(HELP, call_name(node))
+            hcfg = CFG(helper)
+            params = [a.arg for a in helper.args.args]
+            mapping = {p: inline_reaching(cfg, node, a, keep=keep) for p, a in zip(params, node.args)}
+            for kw in node.keywords:
+                if kw.arg:
+                    mapping[kw.arg] = inline_reaching(cfg, node, kw.value, keep=keep)
+            for inner in walk_local(helper):
+                if not isinstance(inner, ast.Assign):
+                    continue
+                for target in inner.targets:
+                    if isinstance(target, ast.Subscript) and txt(target.value).endswith(".qualifiers") \
+                            and isinstance(target.slice, ast.Constant):
+                        value = inline_reaching(hcfg, inner, inner.value)
+                        value = _substitute(value, mapping)
+                        out.append((target.slice.value, expand_helpers(ctx.repo, HELP, value), node))
+    return out
+
+
+def _substitute(expr: ast.AST, mapping: Dict[str, ast.AST]) -> ast.AST:
+    import copy
+
+    class Sub(ast.NodeTransformer):
+        def visit_Name(self, node: ast.Name) -> ast.AST:
+            if node.id in mapping and isinstance(node.ctx, ast.Load):
+                return copy.deepcopy(mapping[node.id])
+            return node
+    return ast.fix_missing_locations(Sub().visit(copy.deepcopy(expr)))
+
+
 def r12_3(ctx: Ctx) -> None:
     func = ctx.fn(HELP, "_adjust_features")
     firsts = {"candidate_cluster_number": "first_candidate_cluster", "candidate_cluster_numbers": "first_candidate_cluster",
               "protoclusters": "first_cluster", "protocluster_number": "first_cluster",
               "subregion_number": "first_subregion", "subregion_numbers": "first_subregion"}
     seen = set()
-    for node in walk_local(func):
-        if not isinstance(node, ast.BinOp) or not isinstance(node.op, ast.Add):
+    cfg = CFG(func)
+
+    def number_atom(n: ast.AST) -> Optional[str]:
+        if isinstance(n, ast.Call) and call_name(n) == "int":
+            return "N"
+        return None
+
+    for key, value, site in _resolved_stores(ctx, func, cfg, keep=set(firsts.values())):
+        if key not in firsts:
             continue
-        try:
-            def number_atom(n: ast.AST) -> Optional[str]:
-                if isinstance(n, ast.Call) and call_name(n) == "int":
-                    return "N"
-                if isinstance(n, ast.Name) and any(isinstance(v, ast.Call) and call_name(v) == "int" for v in bound_from(func, n.id)):
-                    return "N"
-                return None
-            aff = affine(node, atom_name=number_atom)
-        except OutsideFragment:
-            continue
-        if aff.terms.get("N") != 1 or aff.const != 1:
-            continue
-        first = [k for k, v in aff.terms.items() if v == -1 and k.startswith("first_")]
-        if len(first) != 1:
-            continue
-        # which key is this for: the statement's subscript key, read or written
-        stmt = node
-        while not isinstance(stmt, ast.stmt):
-            stmt = getattr(stmt, "_parent")
-        keys = {n.slice.value for n in ast.walk(stmt) if isinstance(n, ast.Subscript) and isinstance(n.slice, ast.Constant)
-                and isinstance(n.slice.value, str)}
-        names = {n.id for n in ast.walk(stmt) if isinstance(n, ast.Name)}
-        # follow one assignment: `candidates = [...]; qualifiers[key] = candidates`
-        if not keys:
-            tgt = {t.id for t in getattr(stmt, "targets", []) if isinstance(t, ast.Name)}
-            for other in walk_local(func):
-                if isinstance(other, ast.Assign) and isinstance(other.value, ast.Name) and other.value.id in tgt:
-                    keys |= {n.slice.value for n in ast.walk(other.targets[0]) if isinstance(n, ast.Subscript)
-                             and isinstance(n.slice, ast.Constant)}
-        if txt(stmt).startswith("new_number"):
-            keys = {"protocluster_number"}
-        for key in keys & set(firsts):
-            seen.add(key)
-            ok = first[0] == firsts[key]
-            ctx.ob("R12.3", HELP, node, "_adjust_features", f"renumber {key}", ok,
+        found = None
+        for node in ast.walk(value):
+            if not isinstance(node, ast.BinOp) or not isinstance(node.op, (ast.Add, ast.Sub)):
+                continue
+            try:
+                aff = affine(node, atom_name=number_atom)
+            except OutsideFragment:
+                continue
+            if aff.terms.get("N") != 1:
+                continue
+            if found is None or len(txt(node)) > len(txt(found[0])):
+                found = (node, aff)
+        if found is None:
+            ctx.ob("R12.3", HELP, site, "_adjust_features", f"renumber {key}", False,
                    f"`{key}` is renumbered as n - (first number of that family in the region) + 1",
-                   form=f"{key}: {aff}")
-        _ = names
+                   detail="the stored value is not derived from the old number", form=f"{key}: {txt(value)[:100]}")
+            seen.add(key)
+            continue
+        node, aff = found
+        seen.add(key)
+        first = [k for k, v in aff.terms.items() if v == -1 and k != "N"]
+        ok = aff.const == 1 and first == [firsts[key]] and len(aff.terms) == 2
+        ctx.ob("R12.3", HELP, site, "_adjust_features", f"renumber {key}", ok,
+               f"`{key}` is renumbered as n - (first number of that family in the region) + 1",
+               form=f"{key}: {aff}")
     ctx.ob("R12.3", HELP, func, "_adjust_features", "numbered keys covered", seen == set(firsts),
            "every numbered cross reference is renumbered", form=f"missing: {sorted(set(firsts) - seen)}")
     for fam, getter, coll in (("first_candidate_cluster", "get_candidate_cluster_number", "region.candidate_clusters"),
@@ -267,18 +305,20 @@ def r12_3(ctx: Ctx) -> None:
                    "a location is shifted by plain subtraction of the region start instead of the wrapping offset used by "
                    "every other adjuster: anything after the origin of a cross-origin region becomes negative", form=txt(node))
     for qual, call in sites:
+        helper_cfg = CFG(ctx.fn(HELP, qual))
         off = arg_of(call, 0, "offset")
         wrap = kwarg(call, "wrap_point")
-        post_origin = txt(off) == "len(record) - region.start"
-        ok = off is not None and (txt(off) == "-region.start" or post_origin) and wrap is not None and \
-            txt(wrap) in ("record_length", "len(record)")
+        off_text = txt(inline_reaching(helper_cfg, call, off)) if off is not None else ""
+        wrap_text = txt(inline_reaching(helper_cfg, call, wrap)) if wrap is not None else ""
+        post_origin = off_text == "len(record) - region.start"
+        ok = (off_text == "-region.start" or post_origin) and wrap_text in ("record_length", "len(record)")
         ctx.ob("R12.3", HELP, call, qual, f"shift {txt(call)[-60:]}", ok,
                "locations are moved by -region.start (or +len(record)-region.start for the re-based post-origin slice) with the "
-               "record length as wrap point", form=txt(call)[:120])
+               "record length as wrap point", form=f"offset={off_text} wrap_point={wrap_text}")
     if len(sites) + manual_total < 4:
         raise AnalysisError(f"expected at least 4 location adjusters, found {len(sites) + manual_total}")
     caller = [c for c in calls(func) if call_name(c).startswith("_adjust_")]
-    ok = all("len(record)" in txt(c) for c in caller) and len(caller) == 2
+    ok = all("len(record)" in txt(inline_reaching(cfg, c, c)) for c in caller) and len(caller) == 2
     ctx.ob("R12.3", HELP, func, "_adjust_features", "record length handed to helpers", ok,
            "both location-adjusting helpers receive the parent record's length", form="; ".join(txt(c)[:70] for c in caller))
 
@@ -306,6 +346,7 @@ def r12_5(ctx: Ctx) -> None:
     from ..index import _walk_functions
     from ..flow import MUTATORS
     sites = 0
+    cfgs: Dict[str, CFG] = {}
     for qual, func in _walk_functions(ctx.repo.mod(HELP).tree, ""):
         aliases = set()
         for node in walk_local(func):
@@ -328,12 +369,21 @@ def r12_5(ctx: Ctx) -> None:
                             bad = f"element store into {txt(base)}"
                     if isinstance(target, ast.Subscript) and txt(target.value).endswith(".qualifiers"):
                         sites += 1
-                        fresh = isinstance(node, ast.Assign) and (isinstance(node.value, (ast.List, ast.ListComp)) or
-                                                                  (isinstance(node.value, ast.Name) and any(
-                                                                      isinstance(v, (ast.List, ast.ListComp)) for v in bound_from(func, node.value.id))))
-                        ctx.ob("R12.5", HELP, node, qual, f"store {txt(target)[:50]}", fresh,
-                               "an adjusted qualifier is stored as a fresh list in the region feature's own qualifier dict",
-                               form=stmt_key(node))
+                        fresh: Optional[bool] = False
+                        if isinstance(node, ast.Assign):
+                            value = expand_helpers(ctx.repo, HELP, inline_reaching(cfgs.setdefault(qual, CFG(func)), node, node.value))
+                            if isinstance(value, (ast.List, ast.ListComp)) or \
+                                    (isinstance(value, ast.Call) and call_name(value) in ("list", "sorted")):
+                                fresh = True
+                            elif isinstance(value, ast.Call):
+                                fresh = None
+                        if fresh is None:
+                            ctx.cannot("R12.5", HELP, node, qual, f"store {txt(target)[:50]}",
+                                       f"cannot tell whether `{txt(node.value)[:60]}` returns a fresh list")
+                        else:
+                            ctx.ob("R12.5", HELP, node, qual, f"store {txt(target)[:50]}", fresh,
+                                   "an adjusted qualifier is stored as a fresh list in the region feature's own qualifier dict",
+                                   form=stmt_key(node))
             elif isinstance(node, ast.Call) and isinstance(node.func, ast.Attribute) and node.func.attr in MUTATORS:
                 recv = node.func.value
                 if (isinstance(recv, ast.Name) and recv.id in aliases) or \
